@@ -50,7 +50,22 @@ Big == {[k |-> kd, s |-> Ws(m)] : kd \in SetKinds, m \in {9, 17, 33}} \cup {[k |
              [k |-> "SetIntension", s |-> {[k |-> "Disjunction", s |-> Ws(11)], W("a")}]}
 Ints == {INT("1"), INT("4294967297"), INT("9223372036854775809"), INT("0"), INT("4294967296")}
 IntU == Ints \cup {[k |-> "SetExtension", s |-> {iv, W("a")}] : iv \in Ints} \cup {[k |-> "Product", q |-> <<iv>>] : iv \in Ints}
-EqU == L1 \cup L2 \cup L3 \cup Big \cup IntU
+\* every constructor directly inside every constructor (a third of the pairwise cover in the quick tier), and terms whose two
+\* components are the same term
+SameKids == UNION {{[k |-> "Product", q |-> <<c, c>>], [k |-> "Inheritance", a |-> c, b |-> c], [k |-> "Similarity", p |-> {c}],
+                    [k |-> "ImplicationPredictive", a |-> c, b |-> c], [k |-> "DifferenceExtension", a |-> c, b |-> c]} : c \in Reps}
+\* siblings that feed the same hash input but are different terms (Hash writes no constructor tag): the same pair under two
+\* different unordered / symmetric constructors, as the two operands of a symmetric statement and as two elements of a set
+TwinKinds == {"SetExtension", "SetIntension", "Conjunction", "Similarity", "Equivalence", "EquivalenceConcurrent"}
+Twin(kd) == IF kd \in SymStmtKinds THEN [k |-> kd, p |-> {W("a"), W("b")}] ELSE [k |-> kd, s |-> {W("a"), W("b")}]
+HashTwins == UNION {{[k |-> o, p |-> {Twin(t1), Twin(t2)}] : o \in SymStmtKinds} \cup {[k |-> "SetExtension", s |-> {Twin(t1), Twin(t2)}],
+                                                                               [k |-> "Product", q |-> <<Twin(t1), Twin(t2)>>]}
+                    : t1 \in TwinKinds, t2 \in TwinKinds}
+\* the same text under different atom kinds (a word, a variable, an operator, an interval spelt alike) side by side
+SameText == LET A1 == {W("1"), INT("1"), IV("1"), OP("1"), QV("1")} IN
+            {[k |-> kd, p |-> pr] : kd \in SymStmtKinds, pr \in PairsUnordered(A1)} \cup {[k |-> kd, s |-> S] : kd \in {"SetExtension", "Conjunction"}, S \in SubsetsUpTo(A1, 2)}
+            \cup {[k |-> "Inheritance", a |-> u1, b |-> u2] : u1 \in A1, u2 \in A1}
+EqU == HashTwins \cup SameText \cup L1 \cup L2 \cup L3 \cup Big \cup IntU \cup SameKids \cup (IF TIER = "thorough" THEN PairCoverSet(0) ELSE Sample(PairCoverSet(0), 3, SEED))
 
 \* near misses: different canonical form, as close as possible
 SetSwap(kd) == CASE kd = "SetExtension" -> "SetIntension" [] kd = "SetIntension" -> "SetExtension" [] kd = "Conjunction" -> "Disjunction"
@@ -80,7 +95,8 @@ Next == \/ /\ mode = "design" /\ mode' = "pair" /\ y' \in BTerms(DEPTH) /\ UNCHA
         \/ /\ mode = "design" /\ mode' = "pair2" /\ x' \in {b \in BTerms(DEPTH) : Canon(b) = Canon(x) \/ b.k = x.k} /\ y' = x
         \/ /\ mode = "seed" /\ mode' = "value" /\ x' \in Part(EqU, x, SEEDS) /\ UNCHANGED y
         \/ /\ mode = "value" /\ mode' = "recipes"
-           /\ \E vv \in (IF TIER = "thorough" THEN (1..4) \X (1..4) ELSE {<<1, 2>>, <<2, 3>>, <<3, 4>>, <<4, 1>>, <<3, 3>>}) :
+           /\ \E vv \in (IF TIER = "thorough" THEN {<<1, 2>>, <<2, 3>>, <<3, 4>>, <<4, 1>>, <<3, 3>>, <<1, 3>>, <<2, 4>>, <<4, 2>>, <<1, 1>>}
+                         ELSE {<<1, 2>>, <<2, 3>>, <<3, 4>>, <<4, 1>>, <<3, 3>>}) :
               \E w \in {x} \cup Near(x) : x' = Recipe(x, vv[1]) /\ y' = Recipe(w, vv[2])
 
 \* ---- (1) for all hidden orders
